@@ -705,9 +705,14 @@ func c11(c *core.Ctx, r *core.Report) {
 		}
 		if carryTemplate(c, r, forFn, carry, "fraction") {
 			for _, st := range carry.stores(forFn) {
-				sub := noConv(st.Val).(*ssa.BinOp)
-				call, ok := noConv(sub.Y).(*ssa.Call)
-				okFloor := ok && an.IsFunc(an.Callee(call), "math", "Floor") && noConv(call.Call.Args[0]) == noConv(sub.X)
+				q := an.RootFV(forFn, st.Val).Resolve(nil)
+				sub, isSub := q.V.(*ssa.BinOp)
+				if !isSub {
+					continue
+				}
+				out := an.FV{V: sub.Y, F: q.F}.Resolve(nil)
+				call, ok := out.V.(*ssa.Call)
+				okFloor := ok && an.IsFunc(an.Callee(call), "math", "Floor") && (an.FV{V: call.Call.Args[0], F: out.F}).Resolve(nil).V == (an.FV{V: sub.X, F: q.F}).Resolve(nil).V
 				r.Check(okFloor, core.FuncName(forFn)+"#floor", an.Pos(c, st), "emitted = floor(due)", "the emitted part is "+an.D().Of(sub.Y)+", not floor(due): the stored remainder can be negative or exceed 1")
 			}
 		}
@@ -1274,19 +1279,14 @@ func c13(c *core.Ctx, r *core.Report) {
 			}
 			r.Check(evals == 1, "WithJitter#rate-eval-sites", c.Pos(cl.Pos()), "one evaluation of the wrapped rate per tick", sprintf("%d evaluations of the wrapped rate per tick", evals))
 			for _, st := range k.stores(cl) {
-				sub := noConv(st.Val).(*ssa.BinOp)
-				add := noConv(sub.X).(*ssa.BinOp)
-				term := add.X
-				if k.loadOf(noConv(add.X)) {
-					term = add.Y
-				}
+				term := carryTerms[st]
 				isRate := false
-				if call, ok := an.Strip(noConv(term)).(*ssa.Call); ok {
+				if call, ok := term.V.(*ssa.Call); ok && isRootFrame(term.F) {
 					if n := an.DynCallType(call); n != nil && an.IsNamed(n, apiPkg, "RateFunction") {
 						isRate = true
 					}
 				}
-				r.Check(isRate, "WithJitter#due-term", an.Pos(c, st), "due = rate(now) + balance", "the amount due adds "+an.D().Of(term)+" to the balance, not this tick's un-jittered rate")
+				r.Check(isRate, "WithJitter#due-term", an.Pos(c, st), "due = rate(now) + balance", "the amount due adds "+an.D().Of(term.V)+" to the balance, not this tick's un-jittered rate")
 			}
 		}
 		// initial balance is 0 (or the zero value)
